@@ -205,6 +205,9 @@ func c04(c *Ctx) {
 	r.Rule("R4.3", "on every path of Read returning a count n that may be non-zero, the position field is stored old+n with n the returned SSA value")
 	r.Rule("R4.6", "a Seek answers for the whence it was given: every path of a file reader's Seek to a return that may carry a nil error has branched on the whence parameter, or returns the results of an inner Seek that received (offset, whence) unchanged — a shortcut that looks only at the offset is wrong for two of the three origins")
 	r.Rule("R4.7", "a reader handed out by the size query is positioned at the start: on every return of a non-nil reader the last Seek issued on it is Seek(0, io.SeekStart) (the stream builder splices that reader in as the child's segment)")
+	r.Rule("R4.8", "reading at or past the end is an end-of-data result, never a panic: every slice/index expression in the Read and Seek methods of the file readers is discharged by C13's guard recognition (a position beyond len(buf) must be caught by a >= comparison before buf[pos:])")
+	r.Rule("R4.9", "the length computed from the links is the sum of the per-link sizes: the value returned by the function that loops over the links calling the size query is a loop-carried accumulator updated only by acc + size")
+	r.Rule("R4.10", "the single-block (childless) reader is chosen exactly when the node has no links: the comparison of the links' Length() that selects the wrapped-node constructor is equivalent to Length() == 0")
 	r.Rule("R4.5", "no Reader/Seeker is ever stored into the state of a file node type (field, map entry or slice element of a type that hands out readers but is not itself a reader): cursors obtained separately share nothing mutable")
 	r.Rule("R4.4", "every AsLargeBytes in package file returns an object allocated in that call (or the result of another AsLargeBytes); never a value loaded from a field or global; no Reader/Seeker loaded from the receiver is embedded in it")
 	r.Assumes = append(r.Assumes, "integer overflow of position arithmetic is not modelled (sum of non-negatives treated as non-negative)", "entry value of the position field is >= 0 (inductive hypothesis; base case: allocation sites store constants)")
@@ -245,6 +248,9 @@ func c04(c *Ctx) {
 	c.checkNoCursorInNode()
 	c.checkWhenceExamined()
 	c.checkSizeQueryRewinds("R4.7")
+	c.checkReaderBounds()
+	c.checkLengthIsSum()
+	c.checkChildlessDispatch("R4.10")
 }
 
 func (c *Ctx) fieldOfAddr(fn *ssa.Function, addr ssa.Value) *types.Var {
@@ -1019,4 +1025,171 @@ func (c *Ctx) fieldNilPredicate(fn *ssa.Function, cond ssa.Value) (*types.Var, b
 		return nil, false, false
 	}
 	return fv, trueMeansNil != neg, true
+}
+
+// checkReaderBounds implements R4.8.
+func (c *Ctx) checkReaderBounds() {
+	r := c.R
+	d := newDischarger(c)
+	n := 0
+	for _, fn := range c.G.Funcs() {
+		rel, ok := c.P.PkgOf(fn)
+		if !ok || rel != "file" || fn.Synthetic != "" || !(seekSig(fn) || readSig(fn)) {
+			continue
+		}
+		for _, s := range c.enumeratePanicSites(fn) {
+			if s.kind != "slice" && s.kind != "index" {
+				continue
+			}
+			n++
+			ok2, how := d.discharge(s)
+			r.Check(ok2, "R4.8", "bounds:"+c.siteKey(s), c.P.Pos(s.ins.Pos()), s.desc+": "+how, s.desc+" in a reader method may panic for a position at or beyond the end instead of reporting end of data: "+how)
+		}
+	}
+	r.Floor("R4.8", n, 1)
+}
+
+// checkLengthIsSum implements R4.9.
+func (c *Ctx) checkLengthIsSum() {
+	r := c.R
+	queries := map[*ssa.Function]bool{}
+	for _, q := range c.sizeQueries() {
+		queries[q] = true
+	}
+	n := 0
+	for _, fn := range c.G.Funcs() {
+		rel, ok := c.P.PkgOf(fn)
+		if !ok || rel != "file" || fn.Synthetic != "" || len(fn.Blocks) == 0 {
+			continue
+		}
+		res := fn.Signature.Results()
+		if res.Len() != 2 || !isIntegerType(res.At(0).Type()) || !core.IsErrorType(res.At(1).Type()) {
+			continue
+		}
+		// calls the size query inside a loop, and is not the stream builder
+		var qcall *ssa.Call
+		builder := false
+		for _, ci := range core.CallsIn(fn) {
+			if call, ok := ci.(*ssa.Call); ok {
+				if queries[call.Call.StaticCallee()] && core.InCycle(call.Block()) {
+					qcall = call
+				}
+				if core.IsCallTo(call, "io", "MultiReader") {
+					builder = true
+				}
+			}
+		}
+		if qcall == nil || builder {
+			continue
+		}
+		n++
+		key := core.FuncName(fn) + "/length-is-sum"
+		var bad []string
+		for _, ret := range core.Returns(fn) {
+			rr := core.ResolvedResults(ret)
+			if !core.IsNilConst(rr[1]) {
+				continue
+			}
+			phi, ok := core.Unconv(rr[0]).(*ssa.Phi)
+			if !ok {
+				if k, isK := core.ConstInt(rr[0]); isK && k == 0 {
+					continue
+				}
+				bad = append(bad, fmt.Sprintf("return at %s does not return the accumulated sum", c.P.Pos(ret.Pos())))
+				continue
+			}
+			for i, e := range phi.Edges {
+				if k, isK := core.ConstInt(e); isK && k == 0 {
+					continue
+				}
+				if e == ssa.Value(phi) {
+					continue
+				}
+				add, isAdd := e.(*ssa.BinOp)
+				okAdd := false
+				if isAdd && add.Op == token.ADD {
+					for _, pair := range [][2]ssa.Value{{add.X, add.Y}, {add.Y, add.X}} {
+						if pair[0] == ssa.Value(phi) {
+							// the addend: the size result of the query call of this iteration
+							if c2 := callFeeding(pair[1], 0); c2 != nil && queries[c2.Call.StaticCallee()] {
+								okAdd = true
+							}
+						}
+					}
+				}
+				if !okAdd {
+					bad = append(bad, fmt.Sprintf("the running length is updated with something other than length + size(link) (edge %d of the accumulator at %s)", i, c.P.Pos(phi.Pos())))
+				}
+			}
+		}
+		r.Check(len(bad) == 0, "R4.9", key, c.P.Pos(fn.Pos()), "the length is the sum of the per-link sizes", uniqJoin(bad))
+	}
+	r.Floor("R4.9", n, 1)
+}
+
+// checkChildlessDispatch implements R4.10 (and R20.5).
+func (c *Ctx) checkChildlessDispatch(rule string) {
+	r := c.R
+	n := 0
+	for _, fn := range c.G.Funcs() {
+		rel, ok := c.P.PkgOf(fn)
+		if !ok || rel != "file" || fn.Synthetic != "" || fn.Signature.Recv() != nil || fn.Object() == nil || !fn.Object().Exported() {
+			continue
+		}
+		for _, b := range fn.Blocks {
+			iff := core.BlockIf(b)
+			if iff == nil {
+				continue
+			}
+			bo, ok := iff.Cond.(*ssa.BinOp)
+			if !ok {
+				continue
+			}
+			isLen := func(v ssa.Value) bool {
+				call, ok := core.Unconv(v).(*ssa.Call)
+				if !ok {
+					return false
+				}
+				name, _ := methodCall(call)
+				return name == "Length"
+			}
+			var op token.Token
+			var k int64
+			switch {
+			case isLen(bo.X):
+				kk, isK := core.ConstInt(bo.Y)
+				if !isK {
+					continue
+				}
+				op, k = bo.Op, kk
+			case isLen(bo.Y):
+				kk, isK := core.ConstInt(bo.X)
+				if !isK {
+					continue
+				}
+				k = kk
+				switch bo.Op {
+				case token.LSS:
+					op = token.GTR
+				case token.GTR:
+					op = token.LSS
+				case token.LEQ:
+					op = token.GEQ
+				case token.GEQ:
+					op = token.LEQ
+				default:
+					op = bo.Op
+				}
+			default:
+				continue
+			}
+			// does one arm construct the childless node and the other the sharded one?
+			n++
+			key := core.FuncName(fn) + "/childless-iff-no-links"
+			// accepted: len == 0, len <= 0, len < 1 (true arm = childless); len != 0, len > 0, len >= 1 (false arm = childless)
+			exact := (op == token.EQL && k == 0) || (op == token.LEQ && k == 0) || (op == token.LSS && k == 1) || (op == token.NEQ && k == 0) || (op == token.GTR && k == 0) || (op == token.GEQ && k == 1)
+			r.Check(exact, rule, key, c.P.Pos(bo.Pos()), "the node is treated as childless exactly when it has no links", fmt.Sprintf("the links' Length() is compared with %s %d: a node that has links can be treated as childless (its children are never read)", op, k))
+		}
+	}
+	r.Floor(rule, n, 1)
 }
